@@ -44,65 +44,14 @@ Proof.
   replace (length c + 2 - 2) with (length c) by lia. rewrite firstn_app, Nat.sub_diag, firstn_all. simpl. now rewrite app_nil_r.
 Qed.
 
-(** appending CRLF unless it is there, then cutting one CRLF: equal up to a final line break *)
-Lemma final_break_ok c :
-  eq_upto_final_break c (drop_final_crlf (if has_suffix c crlf then c else c ++ crlf)) = true.
-Proof.
-  unfold eq_upto_final_break. destruct (has_suffix c crlf) eqn:E.
-  - apply has_suffix_split in E as [c0 ->]. rewrite drop_final_crlf_app.
-    rewrite (str_eqb_refl (c0 ++ crlf)). now rewrite !orb_true_r.
-  - rewrite drop_final_crlf_app. now rewrite str_eqb_refl.
-Qed.
-
-(** ---- base64: only CR and LF change *)
-Lemma strip_app a b : strip_crlf (a ++ b) = strip_crlf a ++ strip_crlf b.
-Proof. apply filter_app. Qed.
-
-Lemma strip_idem s : strip_crlf (strip_crlf s) = strip_crlf s.
-Proof.
-  unfold strip_crlf. induction s as [|c s IH]; simpl; [reflexivity|].
-  destruct (negb (is_crlf_c c)) eqn:E; simpl; [rewrite E; now rewrite IH | exact IH].
-Qed.
-
-Lemma strip_wrap_aux : forall fuel s, length s < fuel -> strip_crlf (wrap76_aux fuel s) = strip_crlf s.
-Proof.
-  induction fuel as [|f IH]; intros s H; [lia|].
-  destruct s as [|c s']; [reflexivity|].
-  cbn [wrap76_aux]. rewrite !strip_app. rewrite IH.
-  - change (strip_crlf crlf) with (@nil ascii). cbn [app]. rewrite <- strip_app, firstn_skipn. reflexivity.
-  - rewrite skipn_length. simpl in *. lia.
-Qed.
-
-Lemma strip_wrap s : strip_crlf (wrap76 s) = strip_crlf s.
-Proof. apply strip_wrap_aux. lia. Qed.
-
-Lemma strip_drop_final s : strip_crlf (drop_final_crlf s) = strip_crlf s.
-Proof.
-  unfold drop_final_crlf. destruct (has_suffix s crlf) eqn:E; [|reflexivity].
-  apply has_suffix_split in E as [s0 ->]. rewrite app_length. simpl length.
-  replace (length s0 + 2 - 2) with (length s0) by lia. rewrite firstn_app, Nat.sub_diag, firstn_all. simpl.
-  rewrite app_nil_r, strip_app. change (strip_crlf crlf) with (@nil ascii). now rewrite app_nil_r.
-Qed.
-
-Lemma strip_written cte c : strip_crlf (drop_final_crlf (written_content cte c)) = strip_crlf c.
-Proof.
-  rewrite strip_drop_final. unfold written_content.
-  set (c' := if equal_fold (trim_space cte) s_base64 && negb (already_wrapped c) then wrap76 (strip_crlf c) else c).
-  assert (E : strip_crlf c' = strip_crlf c).
-  { unfold c'. destruct (equal_fold (trim_space cte) s_base64 && negb (already_wrapped c)); [|reflexivity].
-    now rewrite strip_wrap, strip_idem. }
-  destruct (has_suffix c' crlf); [exact E|]. rewrite strip_app, E. change (strip_crlf crlf) with (@nil ascii). now rewrite app_nil_r.
-Qed.
-
-Lemma b64_written cte c : b64_decode (drop_final_crlf (written_content cte c)) = b64_decode c.
-Proof. unfold b64_decode. now rewrite strip_written. Qed.
+Lemma written_back c : drop_final_crlf (written_content c) = c.
+Proof. apply drop_final_crlf_app. Qed.
 
 (** ---- a well-formed leaf *)
 Definition eff_fn (l : leaf) : str := match l_filename l with [] => l_ctname l | f => f end.
 
 Definition wf_leaf (l : leaf) : bool :=
   str_eqb (trim_space (l_cte l)) (l_cte l)
-  && (if str_eqb (cte_norm (l_cte l)) s_base64 then match b64_decode (l_body l) with Some _ => true | None => false end else true)
   && (if str_eqb (cte_norm (l_cte l)) s_qp then match qp_decode (l_body l) with Some _ => true | None => false end else true)
   && (match eff_fn l with [] => true | f => negb (is_blank f) end).
 
@@ -119,54 +68,37 @@ Proof. unfold is_blank. intros -> H. destruct x; [congruence | reflexivity]. Qed
 
 Theorem leaf_roundtrip l : wf_leaf l = true -> leaf_equiv l (leaf_image l) = true.
 Proof.
-  unfold wf_leaf. rewrite !andb_true_iff. intros [[[WT WB] WQ] WF].
+  unfold wf_leaf. rewrite !andb_true_iff. intros [[WT WQ] WF].
   apply str_eqb_eq in WT.
   assert (NORM : cte_norm (l_cte l) = to_lower (l_cte l)) by (unfold cte_norm; now rewrite WT).
   assert (QPF : equal_fold (l_cte l) s_qp = str_eqb (cte_norm (l_cte l)) s_qp) by (rewrite equal_fold_lower, NORM; reflexivity).
-  assert (B64F : equal_fold (trim_space (l_cte l)) s_base64 = str_eqb (cte_norm (l_cte l)) s_base64)
-    by (rewrite equal_fold_lower; reflexivity).
   unfold leaf_image, parse_leaf. rewrite QPF.
-  (* the three ways content travels *)
+  (* the two ways content travels *)
   assert (CONTENT : exists content cte',
      (if str_eqb (cte_norm (l_cte l)) s_qp then qp_decode (l_body l) else Some (l_body l)) = Some content
      /\ cte' = (if str_eqb (cte_norm (l_cte l)) s_qp then [] else l_cte l)
      /\ forall is_text : bool,
-        eq_upto_final_break (decode (l_cte l) (l_body l))
-          (decode (if negb (is_blank cte') then cte' else if is_text then S_ "7bit" else [])
-                  (drop_final_crlf (written_content cte' content))) = true).
+        str_eqb (decode (l_cte l) (l_body l))
+          (decode (if negb (is_blank cte') then cte' else if is_text then S_ "7bit" else []) content) = true).
   { destruct (str_eqb (cte_norm (l_cte l)) s_qp) eqn:Q.
-    - (* quoted-printable: decoded by the multipart reader, stored raw *)
+    - (* quoted-printable: decoded by the multipart reader, stored and returned raw *)
       destruct (qp_decode (l_body l)) as [d|] eqn:D; [|discriminate].
       exists d, []. split; [reflexivity|]. split; [reflexivity|]. intros is_text.
-      unfold decode. apply str_eqb_eq in Q. rewrite Q. cbn [str_eqb]. 
+      unfold decode at 1. apply str_eqb_eq in Q. rewrite Q.
       change (str_eqb s_qp s_base64) with false. change (str_eqb s_qp s_qp) with true. cbv iota. rewrite D.
-      rewrite is_blank_nil. cbn [negb].
-      assert (W : written_content [] d = if has_suffix d crlf then d else d ++ crlf) by reflexivity.
-      rewrite W. destruct is_text; apply final_break_ok.
-    - exists (l_body l), (l_cte l). split; [reflexivity|]. split; [reflexivity|]. intros is_text.
-      destruct (str_eqb (cte_norm (l_cte l)) s_base64) eqn:B.
-      + (* base64: line breaks may move *)
-        assert (NB : is_blank (l_cte l) = false).
-        { apply trimmed_not_blank; [exact WT|]. intros E. rewrite E in B. discriminate B. }
-        rewrite NB. cbn [negb]. unfold decode. rewrite B, b64_written.
-        destruct (b64_decode (l_body l)); [|discriminate]. unfold eq_upto_final_break. now rewrite str_eqb_refl.
-      + (* identity encodings *)
-        assert (W : written_content (l_cte l) (l_body l) = if has_suffix (l_body l) crlf then l_body l else l_body l ++ crlf).
-        { unfold written_content. rewrite B64F. reflexivity. }
-        rewrite W.
-        assert (DL : decode (l_cte l) (l_body l) = l_body l) by (unfold decode; now rewrite B, Q).
-        rewrite DL.
-        assert (DR : forall x, decode (if negb (is_blank (l_cte l)) then l_cte l else if is_text then S_ "7bit" else []) x = x).
-        { intros x. destruct (is_blank (l_cte l)); cbn [negb].
-          - destruct is_text; reflexivity.
-          - unfold decode. now rewrite B, Q. }
-        rewrite DR. apply final_break_ok. }
+      rewrite is_blank_nil. cbn [negb]. destruct is_text; apply str_eqb_refl.
+    - (* every other encoding: the octets and the encoding name come back as they were *)
+      exists (l_body l), (l_cte l). split; [reflexivity|]. split; [reflexivity|]. intros is_text.
+      destruct (is_blank (l_cte l)) eqn:BL; cbn [negb]; [|apply str_eqb_refl].
+      assert (E : l_cte l = []).
+      { unfold is_blank in BL. rewrite WT in BL. destruct (l_cte l); [reflexivity | discriminate]. }
+      rewrite E. destruct is_text; apply str_eqb_refl. }
   destruct CONTENT as (content & cte' & PC & -> & DEC).
   rewrite PC. unfold leaf_equiv, emit_leaf. cbn [r_part pp_type pp_charset pp_cte pp_disp pp_filename pp_cid].
   fold (eff_fn l).
   set (is_text := has_prefix (to_lower (to_lower (eff_type l))) s_text_).
   set (has_fn := negb (is_blank (eff_fn l))).
-  unfold row_content. cbn [r_blob r_part pp_text].
+  unfold row_content. cbn [r_blob r_part pp_text]. rewrite written_back.
   (* the pair (disposition, file name) *)
   set (DF := if negb (is_blank (l_disp l))
              then (if has_fn && negb (contains (to_lower (l_disp l)) (S_ "filename="))
@@ -197,9 +129,23 @@ Proof.
   - (* content-id *)
     destruct (is_blank (l_cid l)) eqn:BL; cbn [negb]; [|apply str_eqb_refl].
     unfold is_blank in BL. destruct (trim_space (l_cid l)); [reflexivity | discriminate].
-  - (* decoded content *)
+  - (* decoded content: identical *)
     apply DEC.
 Qed.
+
+(** a leaf that is not quoted-printable comes back with the very octets it had *)
+Theorem leaf_body_exact l :
+  equal_fold (l_cte l) s_qp = false -> l_body (leaf_image l) = l_body l.
+Proof.
+  intros Q. unfold leaf_image, parse_leaf. rewrite Q. unfold emit_leaf.
+  cbn [r_part pp_type pp_charset pp_cte pp_disp pp_filename pp_cid]. unfold row_content. cbn [r_blob r_part pp_text].
+  rewrite written_back.
+  match goal with |- l_body (let '(_, _) := ?X in _) = _ => destruct X end. reflexivity.
+Qed.
+
+(** the property's own wording (equal up to a final line break) follows from identity *)
+Lemma exact_implies_upto a b : str_eqb a b = true -> eq_upto_final_break a b = true.
+Proof. unfold eq_upto_final_break. intros ->. reflexivity. Qed.
 
 (** ---- whole trees *)
 Fixpoint wf_leaves (t : mime) : bool :=
